@@ -13,7 +13,7 @@ import filemodel
 from common import F
 
 ID = 'C01'
-GEN_SECTIONS = ['GenFile', 'GenDedup', 'FP_file_io']
+GEN_SECTIONS = ['GenFile', 'GenDedup', 'GenScan', 'FP_file_io', 'FP_first_last_scan']
 COQ_TARGETS = ['Props/C01.vo']
 EXTRACT_TARGETS = ['Extract/Ex_file.vo']
 RUNNER = 'file'
@@ -320,9 +320,17 @@ def flush(ctx, pend):
     for p in pend:
         lines.append(filemodel.encode_write(p['state']))
         lines.append(filemodel.encode_read(p['tok'], p['sysr']))
+        p['scan_lib'], blocks = filemodel.scan_inputs(p['s3'])
+        lines.append(filemodel.encode_scan(p['scan_lib'], blocks))
     outs = ctx.model(lines)
     for i, p in enumerate(pend):
-        ow, orr = outs[2 * i], outs[2 * i + 1]
+        ow, orr, osc = outs[3 * i], outs[3 * i + 1], outs[3 * i + 2]
+        if osc.startswith(('EXC', 'UNKNOWN')):
+            ctx.mismatch('model-error', p['case'], {'scan': osc[:200]})
+        else:
+            bad = filemodel.compare_scan(osc, p['s3'], p['scan_lib'])
+            if bad:
+                ctx.mismatch('scan', p['case'], bad)
         if ow.startswith(('EXC', 'UNKNOWN')) or orr.startswith(('EXC', 'UNKNOWN')):
             ctx.mismatch('model-error', p['case'], {'write': ow[:200], 'read': orr[:200]})
             continue
